@@ -2,77 +2,8 @@ package storage
 
 import (
 	"math"
-	"github.com/flowmatters/openwater-core/data"
 	"github.com/flowmatters/openwater-core/zzverif/vsym"
 )
-
-// c13tables: nLVA symbolic points: volumes strictly increasing from >= 0, levels/areas
-// non-decreasing and >= 0, 0 <= minRelease <= maxRelease (both non-decreasing).
-func c13tables(n int) (lv, vol, ar, mn, mx data.ND1Float64) {
-	mk := func() data.ND1Float64 { return data.NewArray1DFloat64(n) }
-	lv, vol, ar, mn, mx = mk(), mk(), mk(), mk(), mk()
-	for i := 0; i < n; i++ {
-		l, v, a, r0, r1 := vsym.Float64("level"), vsym.Float64("vol"), vsym.Float64("area"), vsym.Float64("minRel"), vsym.Float64("maxRel")
-		vsym.Assume(l >= 0 && v >= 0 && a >= 0 && r0 >= 0 && r1 >= r0)
-		lv.Set1(i, l)
-		vol.Set1(i, v)
-		ar.Set1(i, a)
-		mn.Set1(i, r0)
-		mx.Set1(i, r1)
-		if i > 0 {
-			vsym.Assume(v > vol.Get1(i-1) && l >= lv.Get1(i-1) && a >= ar.Get1(i-1) && r0 >= mn.Get1(i-1) && r1 >= mx.Get1(i-1))
-		}
-	}
-	return
-}
-
-func c13one(v float64) data.ND1Float64 {
-	a := data.NewArray1DFloat64(1)
-	a.Set1(0, v)
-	return a
-}
-
-// linear interpolation of a table at x (harness-side reference), capped at the ends
-func c13interp(x float64, xs, ys data.ND1Float64, n int) float64 {
-	if x <= xs.Get1(0) {
-		return ys.Get1(0)
-	}
-	r := ys.Get1(n - 1)
-	for i := n - 2; i >= 0; i-- {
-		x0, x1 := xs.Get1(i), xs.Get1(i+1)
-		if x <= x1 {
-			r = ys.Get1(i) + (x-x0)/(x1-x0)*(ys.Get1(i+1)-ys.Get1(i))
-		}
-	}
-	return r
-}
-
-// concrete, realistic tables (stated bound: the table VALUES are fixed, everything hydrological
-// is symbolic).  which = 0: 2 points, 1: 3 points.
-func c13fixedTables(which int) (n int, lv, vol, ar, mn, mx data.ND1Float64) {
-	var L, V, A, R0, R1 []float64
-	if which == 2 {
-		// a small pool behind a large spillway: spill capacity per step exceeds the pool volume
-		L, V, A, R0, R1 = []float64{0, 2}, []float64{0, 1000}, []float64{0, 500}, []float64{0, 10}, []float64{0, 20}
-	} else if which == 3 {
-		// levels against an elevation datum and a flat bottom: the first level and area entries are
-		// NOT zero, so an empty storage still has a level and a water surface
-		L, V, A, R0, R1 = []float64{100, 120}, []float64{0, 2000000}, []float64{50000, 300000}, []float64{0, 2}, []float64{0, 40}
-	} else if which == 0 {
-		L, V, A, R0, R1 = []float64{0, 20}, []float64{0, 2000000}, []float64{0, 300000}, []float64{0, 2}, []float64{0, 40}
-	} else {
-		L, V, A, R0, R1 = []float64{0, 10, 20}, []float64{0, 1000000, 3000000}, []float64{0, 200000, 300000}, []float64{0, 0, 5}, []float64{0, 20, 50}
-	}
-	n = len(L)
-	mk := func(x []float64) data.ND1Float64 {
-		a := data.NewArray1DFloat64(n)
-		for i, v := range x {
-			a.Set1(i, v)
-		}
-		return a
-	}
-	return n, mk(L), mk(V), mk(A), mk(R0), mk(R1)
-}
 
 func c13storage(which int, balanceOnly bool) {
 	if balanceOnly {
